@@ -1,5 +1,5 @@
 #!/bin/bash
-# matrix.sh [tier] [MUTID...] — apply every seeded change to /repo in turn, run the check of the
+# matrix.sh [tier] [MUTID[:Cxx]...] — apply every seeded change to /repo in turn, run the check of the
 # property it breaks, undo it; one line per change in /verif/seeded/MATRIX.<tier>.tsv
 # (id, check, verdict caught|MISSED|inconclusive|apply-failed, exit code, first signature, seconds).
 tier=${1:-quick}; shift
@@ -9,8 +9,10 @@ out=/verif/seeded/MATRIX.$tier.tsv
 tmp=$(mktemp)
 cd /repo || exit 9
 if ! git diff --quiet; then echo "/repo has uncommitted changes"; exit 9; fi
-for id in "${ids[@]}"; do
-  prop=${id%%_*}
+for spec in "${ids[@]}"; do
+  # <MUTID> or <MUTID>:<Cxx> (run another property's check against the change)
+  id=${spec%%:*}; prop=${id%%_*}
+  [ "$spec" != "$id" ] && prop=${spec##*:}
   patch=/verif/seeded/$id/patch.diff
   s=$(date +%s)
   if ! git -C /repo apply --check "$patch" 2>/dev/null; then
@@ -25,7 +27,7 @@ for id in "${ids[@]}"; do
   fi
   echo -e "$line"
   # replace this id's line in the matrix
-  touch "$out"; grep -v -P "^$id\t" "$out" > "$out.new"; echo -e "$line" >> "$out.new"; sort "$out.new" > "$out"; rm -f "$out.new"
+  touch "$out"; grep -v -P "^$id\t$prop\t" "$out" > "$out.new"; echo -e "$line" >> "$out.new"; sort "$out.new" > "$out"; rm -f "$out.new"
 done
 rm -f "$tmp"
 # evidence written while a change was applied is not evidence for the real tree
